@@ -96,6 +96,7 @@ type RecT struct {
 	mu     sync.Mutex
 	errors []string
 	logs   []string
+	failed bool
 }
 
 var executions = map[string]int{}
@@ -128,8 +129,18 @@ func (r *RecT) Cleanup(f func())         { r.T.Cleanup(f) }
 func (r *RecT) Error(a ...any) {
 	r.mu.Lock()
 	r.errors = append(r.errors, fmt.Sprint(a...))
+	r.failed = true
 	r.mu.Unlock()
 }
+
+// Failed / Skipped: what a *testing.T answers about itself (the recorded errors do not fail the real test, but the test
+// the library sees HAS failed once Error was called).
+func (r *RecT) Failed() bool {
+	r.mu.Lock()
+	defer r.mu.Unlock()
+	return r.failed || r.T.Failed()
+}
+func (r *RecT) Skipped() bool { return r.T.Skipped() }
 func (r *RecT) Log(a ...any) {
 	r.mu.Lock()
 	r.logs = append(r.logs, fmt.Sprint(a...))
